@@ -61,11 +61,17 @@ def run_history(case):
     try:
         gen = {p: 0 for p in phones}
         keys = {p: {0: own_key(w.acc(p))} for p in phones}          # generation -> identity key bytes
-        pin = {p: {q: None for q in phones if q != p} for p in phones}
+        # what each REAL store holds for each contact, read before every event (no protocol modelling: which exchange
+        # makes whom see whose key is the implementation's business; the statement constrains what may happen to a
+        # key once it is remembered and what may be delivered across a mismatch)
+        def real_pins():
+            return {p: {q: pinned_key(w.acc(p), q) for q in phones if q != p} for p in phones}
+        first_pin = {p: {q: None for q in phones if q != p} for p in phones}     # first key ever remembered (per installation)
         sent_count = 0
         for step, ev in enumerate(hist):
             kind = ev[0]
             transitions += 1
+            before_pins = real_pins()
             if kind == "send":
                 x, y = phones[NAMES.index(ev[1])], phones[NAMES.index(ev[2])]
                 X, Y = w.acc(x), w.acc(y)
@@ -80,31 +86,26 @@ def run_history(case):
                     X.handler_errors.append((type(ex).__name__, str(ex)[:200], "app.send", traceback.format_exc()[-800:]))
                 w.settle()
                 got = [m for m in Y.all_received()[before:] if hasattr(m, "getTag") and m.getTag() == "message" and m.getId() == e.getId()]
-                x_ok = pin[x][y] in (None, gen[y])
-                y_ok = pin[y][x] in (None, gen[x])
+                x_ok = before_pins[x][y] in (None, keys[y][gen[y]])
+                y_ok = before_pins[y][x] in (None, keys[x][gen[x]])
                 if autotrust:
                     expect = True
                 else:
                     expect = x_ok and y_ok
                 if expect and len(got) != 1:
-                    bad("not-delivered", "message %s->%s should be delivered (no stale pin%s) but reached the application %d times at step %d"
+                    bad("not-delivered", "message %s->%s should be delivered (neither side remembers an older identity of the other%s) but reached the application %d times at step %d"
                         % (ev[1], ev[2], ", auto-trust on" if autotrust else "", len(got), step), {"history": hist[:step + 1]})
                 if not expect and got:
-                    bad("delivered-across-changed-identity", "message %s->%s was delivered although %s pins an older identity of %s (step %d)"
+                    bad("delivered-across-changed-identity", "message %s->%s was delivered although %s remembers an older identity of %s (step %d)"
                         % (ev[1], ev[2], ev[1] if not x_ok else ev[2], ev[2] if not x_ok else ev[1], step), {"history": hist[:step + 1]})
                 if got and got[0].getBody() != body:
                     bad("content", "delivered body differs")
-                # model update
-                if autotrust:
-                    pin[x][y] = gen[y]
-                    pin[y][x] = gen[x]
-                else:
-                    if x_ok:
-                        pin[x][y] = gen[y]          # X fetched Y's bundle or already had it
-                        if y_ok:
-                            pin[y][x] = gen[x]
+                if got and not autotrust:
+                    # a delivered message means both sides now remember each other's CURRENT identity
+                    after = real_pins()
+                    if after[y][x] != keys[x][gen[x]]:
+                        bad("pin-missing-after-delivery", "%s received a message from %s but does not remember its identity" % (ev[2], ev[1]), {"history": hist[:step + 1]})
             elif kind == "learn":
-                # the server tells X that Y's identity changed / X looks Y's keys up without sending anything
                 x, y = phones[NAMES.index(ev[1])], phones[NAMES.index(ev[2])]
                 X, Y = w.acc(x), w.acc(y)
                 from yowsup.structs.protocoltreenode import ProtocolTreeNode as _N
@@ -112,15 +113,16 @@ def run_history(case):
                 w.server.to_client(X.jid, _N("notification", {"type": "encrypt", "id": "idn%d" % w.server.nid, "from": Y.jid, "t": w.server.tick()},
                                             [_N("identity")]))
                 w.settle()
-                if autotrust or pin[x][y] in (None, gen[y]):
-                    pin[x][y] = gen[y]
+                if before_pins[x][y] is None and pinned_key(X, y) != keys[y][gen[y]]:
+                    bad("bundle-not-remembered", "%s looked %s's keys up for the first time but does not remember the identity" % (ev[1], ev[2]), {"history": hist[:step + 1]})
             elif kind == "reinstall":
                 x = phones[NAMES.index(ev[1])]
                 w.reinstall(x)
                 w.settle()
                 gen[x] += 1
                 keys[x][gen[x]] = own_key(w.acc(x))
-                pin[x] = {q: None for q in phones if q != x}
+                first_pin[x] = {q: None for q in phones if q != x}
+                before_pins[x] = {q: None for q in phones if q != x}
                 if keys[x][gen[x]] == keys[x][gen[x] - 1]:
                     bad("reinstall-same-key", "harness: reinstall did not change the identity")
             elif kind == "restart":
@@ -128,6 +130,7 @@ def run_history(case):
                 w.restart(x)
                 w.settle()
             # invariants on the REAL stores after every event
+            after = real_pins()
             for p in phones:
                 P = w.acc(p)
                 if own_key(P) != keys[p][gen[p]]:
@@ -135,31 +138,30 @@ def run_history(case):
                 for q in phones:
                     if q == p:
                         continue
-                    real = pinned_key(P, q)
-                    model = pin[p][q]
-                    if model is None:
-                        # the model says "never seen": the store may hold nothing, or the current key if it was learned
-                        # through a refused exchange (e.g. a bundle fetched for a message the peer then refused)
-                        if real is not None and real not in keys[q].values():
-                            bad("pin-unknown-key", "%s pins a key for %s that %s never had" % (p, q, q))
-                        continue
-                    if real is None:
-                        bad("pin-lost", "%s no longer pins any identity for %s (step %d: %s)" % (p, q, step, ev), {"history": hist[:step + 1]})
-                    elif real != keys[q][model]:
-                        which = [g for g, k in keys[q].items() if k == real]
+                    was, now = before_pins[p][q], after[p][q]
+                    if now is not None and now not in keys[q].values():
+                        bad("pin-unknown-key", "%s remembers a key for %s that %s never had" % (p, q, q))
+                    if was is not None and now is None:
+                        bad("pin-lost", "%s no longer remembers any identity for %s (step %d: %s)" % (p, q, step, ev), {"history": hist[:step + 1]})
+                    elif was is not None and now != was:
+                        which = [g for g, k in keys[q].items() if k == now]
                         if autotrust:
-                            # with auto-trust the pin may legitimately move forward to the current identity
                             if which != [gen[q]]:
-                                bad("pin-wrong", "%s pins generation %s of %s, expected %s" % (p, which, q, gen[q]))
+                                bad("pin-wrong", "%s now remembers installation %s of %s, current is %s" % (p, which, q, gen[q]))
                         else:
-                            bad("pin-replaced-silently", "%s's pin for %s changed from installation %s to %s without auto-trust (step %d: %s)"
-                                % (p, q, model, which, step, ev), {"history": hist[:step + 1]})
+                            old = [g for g, k in keys[q].items() if k == was]
+                            bad("pin-replaced-silently", "%s's remembered identity for %s changed from installation %s to %s without auto-trust (step %d: %s)"
+                                % (p, q, old, which, step, ev), {"history": hist[:step + 1]})
+                    if was is None and now is not None and first_pin[p][q] is None:
+                        first_pin[p][q] = now
             for a in w.accounts.values():
                 for he in a.handler_errors:
                     bad("handler-exception:%s" % he[0], "exception escaped a handler of %s processing <%s>: %s %s" % (a.jid, he[2], he[0], he[1]), {"history": hist[:step + 1], "tb": he[3]})
                 a.handler_errors[:] = []
             if v:
                 break
+        pin = real_pins()
+        pin = {p: {q: ([g for g, k in keys[q].items() if k == x] or [None])[0] for q, x in d.items()} for p, d in pin.items()}
         obs = tuple(sorted((p, tuple(sorted((q, g) for q, g in pin[p].items()))) for p in phones))
     finally:
         w.close()
